@@ -298,6 +298,175 @@ def convert(mj, cfg):
     return e, err, [warn_kind(w) for w in ws], calls, m
 
 
+def run_live(m, cfg):
+    """convert the LIVE object m (no fresh copy): (EDS or None, error name, warning kinds, calls)"""
+    calls = []
+    with warnings.catch_warnings(record=True) as ws:
+        warnings.simplefilter("always")
+        try:
+            e = eds.from_mrs(m, predicate_modifiers=make_pm(cfg["pm"], calls), unique_ids=cfg["uniq"])
+            err = None
+        except (IndexError, KeyError, ValueError, TypeError, AttributeError, eds.EDSError) as ex:
+            e, err = None, type(ex).__name__
+    return e, err, [warn_kind(w) for w in ws], calls
+
+
+def obs_of(m, e, err, ws):
+    if err is not None:
+        return {"err": err}
+    return {"ok": {"ids": [V(ep.id) for ep in m.rels], "top": V(e.top),
+                   "nodes": [node_obs(n) for n in e.nodes], "warnings": ws}}
+
+
+def snapshot(m):
+    """deep, order-preserving picture of everything an MRS object holds"""
+    return canon({
+        "top": m.top, "index": m.index, "lnk": str(m.lnk), "surface": m.surface, "identifier": m.identifier,
+        "rels": [[ep.id, ep.predicate, ep.type, ep.label, [[r, v] for r, v in ep.args.items()],
+                  str(ep.lnk), ep.surface, ep.base] for ep in m.rels],
+        "hcons": [[hc.hi, hc.relation, hc.lo] for hc in m.hcons],
+        "icons": [[ic.left, ic.relation, ic.right] for ic in m.icons],
+        "variables": [[v, [[k, x] for k, x in ps.items()]] for v, ps in m.variables.items()],
+        "index_keys": sorted(m._pidx) if hasattr(m, "_pidx") else None})
+
+
+# ---- in-place edits ("convert – edit in place – convert again")
+# Every edit has a pure version on the JSON content and an in-place version on the live object;
+# ARG0 and RSTR are never touched, so EP ids stay what MRS.__init__ made them.  Appending an EP in
+# place is NOT among them: the structure's id index (_pidx) and variable map are only built by the
+# constructor, so the real code cannot even test such an object for well-formedness (KeyError).
+
+def apply_edit_json(mj, ed):
+    m = copy.deepcopy(mj)
+    op = ed["op"]
+    if op == "swap_args":
+        args = m["rels"][ed["ep"]]["args"]
+        i1 = next(k for k, a in enumerate(args) if a[0] == ed["r1"])
+        i2 = next(k for k, a in enumerate(args) if a[0] == ed["r2"])
+        args[i1][1], args[i2][1] = args[i2][1], args[i1][1]
+    elif op == "retarget":
+        for a in m["rels"][ed["ep"]]["args"]:
+            if a[0] == ed["role"]:
+                a[1] = list(ed["to"])
+    elif op == "set_pred":
+        m["rels"][ed["ep"]]["pred"] = ed["pred"]
+    elif op == "set_carg":
+        m["rels"][ed["ep"]]["carg"] = ed["carg"]
+    elif op == "set_prop":
+        for entry in m["vars"]:
+            if entry[0] == ed["var"]:
+                for kv in entry[1]:
+                    if kv[0] == ed["key"]:
+                        kv[1] = ed["val"]
+                        break
+                else:
+                    entry[1].append([ed["key"], ed["val"]])
+                break
+        else:
+            m["vars"].append([list(ed["var"]), [[ed["key"], ed["val"]]]])
+    elif op == "hcons":
+        m["hcons"][ed["idx"]][2] = list(ed["lo"])
+    elif op == "del_ep":
+        del m["rels"][ed["ep"]]
+    else:
+        raise ValueError(op)
+    return m
+
+
+def apply_edit_obj(m, ed):
+    op = ed["op"]
+    if op == "swap_args":
+        args = m.rels[ed["ep"]].args
+        args[ed["r1"]], args[ed["r2"]] = args[ed["r2"]], args[ed["r1"]]
+    elif op == "retarget":
+        m.rels[ed["ep"]].args[ed["role"]] = VF(ed["to"])
+    elif op == "set_pred":
+        m.rels[ed["ep"]].predicate = ed["pred"]
+    elif op == "set_carg":
+        if ed["carg"] is None:
+            m.rels[ed["ep"]].args.pop("CARG", None)
+        else:
+            m.rels[ed["ep"]].args["CARG"] = ed["carg"]
+    elif op == "set_prop":
+        m.variables[VF(ed["var"])][ed["key"]] = ed["val"]
+    elif op == "hcons":
+        hcs = list(m.hcons)
+        old = hcs[ed["idx"]]
+        hcs[ed["idx"]] = mrs.HCons(old.hi, old.relation, VF(ed["lo"]))
+        m.hcons = hcs
+    elif op == "del_ep":
+        del m.rels[ed["ep"]]
+    else:
+        raise ValueError(op)
+
+
+def content(m):
+    """what the conversion may depend on, for comparing a live edited object with a fresh one"""
+    return canon({
+        "top": m.top, "index": m.index,
+        "rels": [[ep.id, ep.predicate, ep.label, [[r, v] for r, v in ep.args.items() if r != "CARG"],
+                  ep.args.get("CARG"), str(ep.lnk), ep.surface, ep.base] for ep in m.rels],
+        "hcons": [[hc.hi, hc.relation, hc.lo] for hc in m.hcons],
+        "ivprops": [[ep.iv, [[k, x] for k, x in m.variables.get(ep.iv, {}).items()]] for ep in m.rels]})
+
+
+def gen_edit(rng, mj):
+    """an in-place edit after which the content is a DIFFERENT MRS that is still in the claim and
+    whose EP ids are those a fresh object would get; None if none of the tried candidates qualifies"""
+    rels = mj["rels"]
+    n = len(rels)
+    labels = [ep["label"] for ep in rels]
+    ivs = [v for ep in rels for r, v in ep["args"] if r == "ARG0"]
+    base_ids = [ep.id for ep in semgen.mrs_from_json(mj).rels]
+    for _ in range(12):
+        r = rng.random()
+        i = rng.randrange(n)
+        free = [a[0] for a in rels[i]["args"] if a[0] not in ("ARG0", "RSTR")]
+        if r < 0.30:
+            if len(free) < 2:
+                continue
+            r1, r2 = rng.sample(free, 2)
+            ed = {"op": "swap_args", "ep": i, "r1": r1, "r2": r2}
+        elif r < 0.55:
+            if not free or not ivs:
+                continue
+            ed = {"op": "retarget", "ep": i, "role": rng.choice(free), "to": rng.choice(ivs)}
+        elif r < 0.63:
+            ed = {"op": "set_pred", "ep": i, "pred": rng.choice(PREDS + ["_edited_v_1"])}
+        elif r < 0.70:
+            ed = {"op": "set_carg", "ep": i, "carg": rng.choice([None, "Edited", "Kim"])}
+        elif r < 0.80:
+            if not ivs:
+                continue
+            v = rng.choice(ivs)
+            ed = {"op": "set_prop", "var": v, "key": rng.choice(["TENSE", "TENSE", "PERS"]),
+                  "val": rng.choice(["past", "untensed", "pres", "2"])}
+        elif r < 0.90:
+            if not mj["hcons"]:
+                continue
+            ed = {"op": "hcons", "idx": rng.randrange(len(mj["hcons"])), "lo": rng.choice(labels)}
+        else:
+            if n < 2:
+                continue
+            ed = {"op": "del_ep", "ep": i}
+        try:
+            m2j = apply_edit_json(mj, ed)
+            if canon(m2j) == canon(mj):
+                continue
+            m2 = semgen.mrs_from_json(m2j)
+            if not in_claim(m2):
+                continue
+            want_ids = list(base_ids)
+            if ed["op"] == "del_ep":
+                del want_ids[ed["ep"]]
+            if [ep.id for ep in m2.rels] != want_ids:
+                continue
+        except Exception:
+            continue
+        return ed
+    return None
+
+
 def in_claim(m):
     """the property's input space: is_well_formed (connected, scope-plausible, IV property) and — the
     reading fixed with the coordinator — no variable bound by two quantifiers"""
@@ -463,7 +632,18 @@ class C05(Check):
         yield from self.random_cases(rng, n)
 
     def mk_case(self, src, m, rng):
-        return {"src": src, "m": m, "configs": gen_configs(rng, m)}
+        case = {"src": src, "m": m, "configs": gen_configs(rng, m)}
+        # "convert – edit in place – convert again" on about half of the in-claim cases
+        try:
+            claim = bool(m["rels"]) and in_claim(semgen.mrs_from_json(m))
+        except Exception:
+            claim = False
+        if claim and rng.random() < 0.55:
+            ed = gen_edit(rng, m)
+            if ed is not None:
+                case["edit"] = ed
+                case["configs"] = [c for c in case["configs"] if not isinstance(c["pm"], dict)]
+        return case
 
     def random_cases(self, rng, n):
         for _ in range(n):
@@ -488,14 +668,18 @@ class C05(Check):
 
     # ---- implementation
     def impl(self, case):
+        """ONE live MRS object goes through all configurations (a per-object cache is then seen);
+        with an edit, the same object is edited in place and converted again under all of them"""
+        m = semgen.mrs_from_json(case["m"])
         out = []
         for cfg in case["configs"]:
-            e, err, ws, _, m = convert(case["m"], cfg)
-            if err is not None:
-                out.append({"err": err})
-            else:
-                out.append({"ok": {"ids": [V(ep.id) for ep in m.rels], "top": V(e.top),
-                                   "nodes": [node_obs(n) for n in e.nodes], "warnings": ws}})
+            e, err, ws, _ = run_live(m, cfg)
+            out.append(obs_of(m, e, err, ws))
+        if case.get("edit") is not None:
+            apply_edit_obj(m, case["edit"])
+            for cfg in case["configs"]:
+                e, err, ws, _ = run_live(m, cfg)
+                out.append(obs_of(m, e, err, ws))
         return out
 
     # ---- model
@@ -519,18 +703,23 @@ class C05(Check):
                         addl.append([V(ids[s]), [[role, V(ids[t])]]])
                 mp = {"custom": addl}
             cfgs.append({"pm": mp, "uniq": cfg["uniq"]})
-        return {"op": "from_mrs", "m": case["m"], "configs": cfgs}
+        req = {"op": "from_mrs", "m": case["m"], "configs": cfgs}
+        if case.get("edit") is not None:
+            req["m2"] = apply_edit_json(case["m"], case["edit"])
+        return req
 
     def model_compare(self, case, expected, answer):
         if not isinstance(answer, list) or len(answer) != len(expected):
             return {"expected_from_impl": expected, "model": answer}
+        nc = len(case["configs"])
         for k, (e, a) in enumerate(zip(expected, answer)):
+            where = {"config": case["configs"][k % nc], "phase": "after the in-place edit" if k >= nc else "first"}
             if isinstance(a, dict) and "unmodelled" in a:
                 if "ok" in e and canon(a.get("ids")) != canon(e["ok"]["ids"]):
-                    return {"config": case["configs"][k], "expected_ids": e["ok"]["ids"], "model": a}
+                    return dict(where, expected_ids=e["ok"]["ids"], model=a)
                 continue
             if canon(e) != canon(a):
-                return {"config": case["configs"][k], "expected_from_impl": e, "model": a}
+                return dict(where, expected_from_impl=e, model=a)
         return None
 
     # ---- direct oracle
@@ -539,18 +728,65 @@ class C05(Check):
         m0 = semgen.mrs_from_json(case["m"])
         if not in_claim(m0):
             return fails
-        for k, cfg in enumerate(case["configs"]):
-            for f in self.oracle_config(case, cfg):
+
+        def add(fs, cfg, phase):
+            for f in fs:
                 f["config"] = cfg
+                if phase:
+                    f["phase"] = phase
                 fails.append(f)
+        live = semgen.mrs_from_json(case["m"])
+        snap = snapshot(live)
+        first = []
+        for cfg in case["configs"]:
+            r1 = run_live(live, cfg)
+            first.append(obs_of(live, r1[0], r1[1], r1[2]))
+            add(self.oracle_config(live, cfg, r1), cfg, None)
+            if snapshot(live) != snap:
+                add([{"clause": "the conversion modifies the source MRS", "detail": None}], cfg, None)
+                snap = snapshot(live)
+        # purity: the same unedited object converted again gives the same results
+        for cfg, o1 in zip(case["configs"], first):
+            r1b = run_live(live, cfg)
+            if canon(obs_of(live, r1b[0], r1b[1], r1b[2])) != canon(o1):
+                add([{"clause": "converting the same unedited MRS twice gives different results", "detail": None}],
+                    cfg, None)
+        if snapshot(live) != snap:
+            add([{"clause": "the conversion modifies the source MRS", "detail": None}], None, None)
+        ed = case.get("edit")
+        if ed is None:
+            return fails
+        # convert – edit in place – convert again
+        m2j = apply_edit_json(case["m"], ed)
+        apply_edit_obj(live, ed)
+        if content(live) != content(semgen.mrs_from_json(m2j)):
+            add([{"clause": "harness: the in-place edit and the edit of the JSON content disagree", "detail": ed}],
+                None, "after the in-place edit")
+            return fails
+        snap2 = snapshot(live)
+        for cfg in case["configs"]:
+            r2 = run_live(live, cfg)
+            # judged against the CURRENT content of the object ...
+            add(self.oracle_config(live, cfg, r2), cfg, "after the in-place edit")
+            # ... and equal to the conversion of a freshly built MRS with the same content
+            fresh = semgen.mrs_from_json(m2j)
+            rf = run_live(fresh, cfg)
+            if canon(obs_of(live, r2[0], r2[1], r2[2])) != canon(obs_of(fresh, rf[0], rf[1], rf[2])):
+                add([{"clause": "conversion after an in-place edit differs from the conversion of a fresh MRS "
+                                "with the same content", "detail": ed}], cfg, "after the in-place edit")
+        if snapshot(live) != snap2:
+            add([{"clause": "the conversion modifies the source MRS", "detail": None}], None,
+                "after the in-place edit")
         return fails
 
-    def oracle_config(self, case, cfg):
+    def oracle_config(self, m, cfg, conv):
+        """every clause of the property for ONE conversion `conv` = run_live(m, cfg) of the object m,
+        judged against the content m has NOW"""
         fails = []
 
         def fail(clause, detail=None):
             fails.append({"clause": clause, "detail": detail})
-        e, err, ws, calls, m = convert(case["m"], cfg)
+        e, err, ws, calls = conv
         eps = list(m.rels)
         n = len(eps)
         # -- totality, no warning
